@@ -3,6 +3,7 @@
 package kcp
 
 import (
+	"encoding/binary"
 	"bytes"
 	"fmt"
 	"time"
@@ -195,11 +196,16 @@ func vfC19(c *hx.Ctx) {
 		c.Explore("no-fec", vfPairParams(cf, 0), 0, vfPairRun(cf, 0, body))
 	}
 	// (d) two clients on one listener, (e) new conversation on the same socket while old OOB is in flight
-	for _, scen := range []string{"two-clients", "reconnect-same-address"} {
+	for _, scen := range []string{"two-clients", "reconnect-same-address", "reconnect-listener-side"} {
 		scen := scen
 		cf := base
 		cf.K = hx.Pick(c, 2, 3)
 		cf.Fates = []int{vfDeliver, vfDrop, vfReorder}
+		if scen == "reconnect-listener-side" {
+			// no delayed copies of the old conversation's first data packet: a late sn=0 segment of another conversation
+			// legitimately starts that conversation again (C11); here the only stale traffic is out-of-band
+			cf.Fates = []int{vfDeliver, vfDrop}
+		}
 		cf.Wire = false
 		body := func(p *vfPair) {
 			var log1, log2, clog2 vfOOBLog
@@ -245,6 +251,72 @@ func vfC19(c *hx.Ctx) {
 					}
 				}
 				second.Close()
+				srv2.Close()
+			} else if scen == "reconnect-listener-side" {
+				// the client application closes its session (conversation a) while OOB messages it sent are still under way, and
+				// opens conversation b from the same address; the listener accepts b, then the stale messages of a arrive.
+				// They must not reach b's handler, and they must not disturb b's stream.
+				p.client.Close()
+				var c2 *UDPSession
+				vrt.Daemons(func() { c2, _ = NewConn3(vfConv+9, p.laddr, nil, cf.DS, cf.PS, p.csock) })
+				m1, m2 := vfPayload(7, 100, 0), vfPayload(7, 200, 100)
+				c2.Write(m1)
+				p.listener.SetReadDeadline(vrt.Now().Add(5 * time.Second))
+				srv2, err := p.listener.AcceptKCP()
+				if err != nil {
+					p.bad("C19:setup", "accept of the new conversation: %v", err)
+					return
+				}
+				srv2.SetOOBHandler(log2.handler())
+				readAll := func(want []byte, what string) bool {
+					var got []byte
+					buf := make([]byte, 4096)
+					for len(got) < len(want) {
+						srv2.SetReadDeadline(vrt.Now().Add(5 * time.Second))
+						n, err := srv2.Read(buf)
+						if err != nil {
+							p.bad("C19:stale-oob-disturbs-the-stream-of-the-new-conversation", "after out-of-band messages of the previous conversation at this address arrived, the new session's Read of %s failed after %d of %d bytes: %v", what, len(got), len(want), err)
+							return false
+						}
+						got = append(got, buf[:n]...)
+					}
+					if !bytes.Equal(got, want) {
+						p.bad("C19:stream-corrupted", "the new session delivered other bytes than its peer wrote (%s)", what)
+						return false
+					}
+					return true
+				}
+				when := vrt.Choose(2, "stale OOB arrives before/after the first message was read")
+				stale := func() {
+					for i := 0; i < 2; i++ {
+						pl := vfOOBPayload(10+i, 40+i)
+						d := make([]byte, fecHeaderSizePlus2+convSize+len(pl))
+						binary.LittleEndian.PutUint32(d, 0xffffffff)
+						binary.LittleEndian.PutUint16(d[4:], typeOOB)
+						binary.LittleEndian.PutUint16(d[6:], uint16(2+convSize+len(pl)))
+						binary.LittleEndian.PutUint32(d[fecHeaderSizePlus2:], vfConv)
+						copy(d[fecHeaderSizePlus2+convSize:], pl)
+						p.lsock.inject(p.caddr, d)
+					}
+					vrt.Sleep(5 * time.Millisecond)
+				}
+				if when == 0 {
+					stale()
+				}
+				if !readAll(m1, "the first message") {
+					return
+				}
+				if when == 1 {
+					stale()
+				}
+				c2.Write(m2)
+				if !readAll(m2, "the message written after the stale OOB arrived") {
+					return
+				}
+				if n := len(log2.list()); n > 0 {
+					p.bad("C19:oob-delivered-to-another-session:new-conversation-on-the-same-address:listener-side", "%d OOB message(s) addressed to the old conversation (conv %#x) were delivered to the handler of the accepted session of the new conversation (conv %#x)", n, vfConv, vfConv+9)
+				}
+				c2.Close()
 				srv2.Close()
 			} else {
 				// the client application closes its session and opens a new conversation on the same socket;
